@@ -10,7 +10,7 @@
 import json, os, random, time
 import vlib
 
-GROUPS = {"C01": "ChanTraceR01.cfg", "C05": "ChanTraceR05.cfg", "C09": "ChanTraceR09.cfg",
+GROUPS = {"C02": "ChanTraceR02.cfg", "C01": "ChanTraceR01.cfg", "C05": "ChanTraceR05.cfg", "C09": "ChanTraceR09.cfg",
           "C10": "ChanTraceR10.cfg", "C12": "ChanTraceR12.cfg"}
 AMT_CLASS = {100000: "dust", 400000: "dust-edge", 600000: "big"}
 
@@ -178,7 +178,7 @@ def selftest(pid, wd, tpath):
 
 
 def run_check(pid, tier, seed, mc_cfgs, profiles, thorough_profiles, assumptions, mc_types=("static",),
-              mc_actions=("MAdd", "MSendCS", "MSendRAA", "MDeliver")):
+              mc_actions=("MAdd", "MSendCS", "MSendRAA", "MDeliver"), mc_module="ChanMC", mutant_cfgs=()):
     t0 = time.time()
     wd = vlib.workdir(pid)
     bins = vlib.build(["channet"])
@@ -188,7 +188,7 @@ def run_check(pid, tier, seed, mc_cfgs, profiles, thorough_profiles, assumptions
     # ---- design check + behaviours
     mcs, scripts = [], []
     for cfg in mc_cfgs[1 if thorough else 0]:
-        r = vlib.tlc_mc(pid, "ChanMC", cfg, workers=12, timeout=3000 if thorough else 900)
+        r = vlib.tlc_mc(pid, mc_module, cfg, workers=12, timeout=3000 if thorough else 900)
         if r["violated"]:
             raise vlib.ToolError("design model violates %s in %s (spec needs correction)" % (r["violated"], cfg))
         vlib.require_coverage(r, list(mc_actions), cfg)
@@ -198,6 +198,12 @@ def run_check(pid, tier, seed, mc_cfgs, profiles, thorough_profiles, assumptions
         scripts += got
         r.pop("out")
         mcs.append((cfg, r))
+    # spec-side rehearsal: with the guard removed TLC must find the loss (the invariants are not vacuous)
+    for cfg in mutant_cfgs:
+        r = vlib.tlc_mc(pid, mc_module, cfg, workers=4, timeout=600, coverage=False)
+        if not r["violated"]:
+            raise vlib.ToolError("spec mutant %s is not rejected by TLC: invariants are vacuous" % cfg)
+        vlib.log("[mc] spec mutant %s violates %s as expected" % (cfg, r["violated"]))
     cap = 6000 if thorough else 1200
     if len(scripts) > cap:
         scripts = rng.sample(scripts, cap)
